@@ -1,15 +1,18 @@
 /-
-  C39 — OpenSSH private keys: theorems over XC.Model.C39.
+  C39 — OpenSSH private keys: theorems over XC.Model.C39 (the code after fixes e406b17, 9cae9ca, 4d7287a).
 
   * padding: what generateOpenSSHPadding appends is accepted by checkOpenSSHKeyPadding and fills the
     block (`padding_accepted`, `padding_fills_8`, `padding_fills_16`);
   * wrong passphrase: a malformed / check-mismatching decrypted block is IncorrectPasswordError for
     encrypted files and a plain error otherwise (`wrong_pass_error`);
-  * consistency of accepted keys, per type (`ed_consistent`, `ec_consistent`, `rsa_consistent`);
+  * **consistent_if_accepted** (both APIs): an accepted key's marshalled public key IS the public key
+    blob stored in the file, and per type: Ed25519 Pub = Priv[32:] = public key of the seed; ECDSA point
+    valid, 0 < D < N, point = D·G; RSA size bounds, exponent rule, rsa.Validate
+    (`ed_consistent`, `ec_consistent`, `rsa_consistent`, `privBlock_outer`, `consistent_if_accepted`,
+    `consistent_if_accepted_pass`);
   * round trip of what MarshalPrivateKey writes for Ed25519 keys (`marshal_parse_ed25519`);
-  * and the two places where the property FAILS on the code as written, with witnesses:
-    the outer public key blob is never compared (`outer_ignored`, `outer_mismatch_accepted`) and a
-    negative ECDSA scalar is accepted (`ec_negative_scalar_accepted`).
+  * regression witnesses of the two former defects: `outer_mismatch_rejected`,
+    `ec_nonpositive_scalar_rejected`.
 -/
 import XC.Model.C39
 import XC.Proofs.C38_Wire
@@ -81,7 +84,8 @@ def headerOk (blk : Bytes) : Option (Bytes × Bytes) :=
     does not even parse is reported as x509.IncorrectPasswordError for encrypted files and as a plain
     error for unencrypted ones. -/
 theorem wrong_pass_error (o : Oracles) (blk : Bytes) (h : headerOk blk = none) :
-    parsePrivBlock o true blk = .badPass ∧ parsePrivBlock o false blk = .err := by
+    ∀ outer, parsePrivBlock o outer true blk = .badPass ∧ parsePrivBlock o outer false blk = .err := by
+  intro outer
   unfold headerOk at h
   unfold parsePrivBlock
   by_cases he : blk.isEmpty = true
@@ -106,73 +110,111 @@ theorem wrong_pass_error (o : Oracles) (blk : Bytes) (h : headerOk blk = none) :
           · simp [hc] at h
           · simp [hc]
 
-/-! ## accepted keys are internally consistent (for what the code checks) -/
+/-! ## accepted keys are internally consistent -/
 
-/-- Ed25519 (the fixed code): an accepted key has a 64-byte private part whose second half is BOTH the
-    `Pub` field of the file and the public key derived from the seed -/
-theorem ed_consistent (o : Oracles) (b : Bytes) (k : PrivKey) (c : Bytes) (h : parseEdPriv o b = .ok k c) :
-    ∃ priv, k = .ed25519 priv ∧ priv.length = 64 ∧ o.edPub = some (priv.drop 32) := by
+theorem checkPub_ok (outer : Bytes) (k k' : PrivKey) (c c' : Bytes) (h : checkPub outer k c = .ok k' c') :
+    k' = k ∧ c' = c ∧ k.pub.marshal = outer := by
+  unfold checkPub at h
+  by_cases hm : k.pub.marshal ≠ outer
+  · rw [if_pos hm] at h; cases h
+  · rw [if_neg hm] at h
+    simp only [Res.ok.injEq] at h
+    exact ⟨h.1.symm, h.2.symm, Decidable.not_not.mp hm⟩
+
+/-- Ed25519: an accepted key has a 64-byte private part whose second half is BOTH the `Pub` field of
+    the file and the public key derived from the seed, and its public key blob is the outer one -/
+theorem ed_consistent (o : Oracles) (outer b : Bytes) (k : PrivKey) (c : Bytes) (h : parseEdPriv o outer b = .ok k c) :
+    ∃ priv, k = .ed25519 priv ∧ priv.length = 64 ∧ o.edPub = some (priv.drop 32) ∧ k.pub.marshal = outer := by
   unfold parseEdPriv at h
   repeat (split at h; (· cases h))
-  simp only [Res.ok.injEq] at h
-  obtain ⟨rfl, rfl⟩ := h
-  refine ⟨_, rfl, ?_, ?_⟩ <;> simp_all
+  obtain ⟨rfl, rfl, hout⟩ := checkPub_ok _ _ _ _ _ h
+  refine ⟨_, rfl, ?_, ?_, hout⟩ <;> simp_all
 
-/-- ECDSA: the point is valid on the named curve, the scalar is below the group order and the point is
-    |D|·G.  NOTE: nothing says `0 < D` (see `ec_negative_scalar_accepted`). -/
-theorem ec_consistent (o : Oracles) (b : Bytes) (k : PrivKey) (c : Bytes) (h : parseECPriv o b = .ok k c) :
-    ∃ bits pt d, k = .ecdsa bits pt d ∧ o.pt bits pt = true ∧ d < (curveOrder bits : Int) ∧ o.ecPub = some pt := by
+/-- ECDSA: the point is valid on the named curve, 0 < D < N, the point is D·G (the oracle is evaluated
+    at |D| = D), and the public key blob is the outer one -/
+theorem ec_consistent (o : Oracles) (outer b : Bytes) (k : PrivKey) (c : Bytes) (h : parseECPriv o outer b = .ok k c) :
+    ∃ bits pt d, k = .ecdsa bits pt d ∧ o.pt bits pt = true ∧ 0 < d ∧ d < (curveOrder bits : Int) ∧
+      o.ecPub = some pt ∧ k.pub.marshal = outer := by
   unfold parseECPriv at h
   repeat (split at h; (· cases h))
-  simp only [Res.ok.injEq] at h
-  obtain ⟨rfl, rfl⟩ := h
-  refine ⟨_, _, _, rfl, ?_, ?_, ?_⟩
+  obtain ⟨rfl, rfl, hout⟩ := checkPub_ok _ _ _ _ _ h
+  refine ⟨_, _, _, rfl, ?_, ?_, ?_, ?_, hout⟩
   · simp_all
+  · rename_i hd _ _ _
+    omega
   · rename_i hd _ _ _
     omega
   · simp_all
 
-/-- RSA: size bounds, exponent rule and rsa.Validate -/
-theorem rsa_consistent (o : Oracles) (b : Bytes) (k : PrivKey) (c : Bytes) (h : parseRSAPriv o b = .ok k c) :
+/-- RSA: size bounds, exponent rule, rsa.Validate, and the public key blob is the outer one -/
+theorem rsa_consistent (o : Oracles) (outer b : Bytes) (k : PrivKey) (c : Bytes) (h : parseRSAPriv o outer b = .ok k c) :
     ∃ n e d iqmp p q, k = .rsa n e d iqmp p q ∧ o.rsaValid = some true ∧ bitLen n ≤ 16384 ∧
-      bitLen p ≤ 8192 ∧ bitLen q ≤ 8192 ∧ bitLen e ≤ 24 ∧ 3 ≤ e ∧ e % 2 ≠ 0 := by
+      bitLen p ≤ 8192 ∧ bitLen q ≤ 8192 ∧ bitLen e ≤ 24 ∧ 3 ≤ e ∧ e % 2 ≠ 0 ∧ k.pub.marshal = outer := by
   unfold parseRSAPriv at h
   repeat (split at h; (· cases h))
   · cases h
-  · simp only [Res.ok.injEq] at h
-    obtain ⟨rfl, rfl⟩ := h
-    refine ⟨_, _, _, _, _, _, rfl, ?_, ?_, ?_, ?_, ?_, ?_, ?_⟩ <;> first | assumption | omega
+  · obtain ⟨rfl, rfl, hout⟩ := checkPub_ok _ _ _ _ _ h
+    refine ⟨_, _, _, _, _, _, rfl, ?_, ?_, ?_, ?_, ?_, ?_, ?_, hout⟩ <;> first | assumption | omega
 
-/-! ## where the property fails on the code as written -/
+/-- whatever the decrypted private block yields, an accepted key's public key blob is `outer` -/
+theorem privBlock_outer (o : Oracles) (outer : Bytes) (enc : Bool) (blk : Bytes) (k : PrivKey) (c : Bytes)
+    (h : parsePrivBlock o outer enc blk = .ok k c) : k.pub.marshal = outer := by
+  unfold parsePrivBlock at h
+  simp only at h
+  have hbad : ∀ (e : Bool), (if e = true then Res.badPass else Res.err) ≠ .ok k c := by
+    intro e; cases e <;> simp
+  repeat (split at h; (· exact absurd h (hbad _)))
+  split at h
+  · obtain ⟨_, _, _, _, _, _, _, _, _, _, _, _, _, _, ho⟩ := rsa_consistent _ _ _ _ _ h; exact ho
+  · split at h
+    · obtain ⟨_, _, _, _, ho⟩ := ed_consistent _ _ _ _ _ h; exact ho
+    · split at h
+      · obtain ⟨_, _, _, _, _, _, _, _, ho⟩ := ec_consistent _ _ _ _ _ h; exact ho
+      · cases h
 
-/-- a negative scalar passes every check of the ECDSA arm: the accepted key cannot sign -/
-theorem ec_negative_scalar_accepted :
-    let o : Oracles := ⟨fun _ _ => true, none, none, none, some [4]⟩
-    let sect := putString (nm "nistp256") ++ putString [4] ++ putString [255] ++ putString []
-    parseECPriv o sect = .ok (.ecdsa 256 [4] (-1)) [] ∧ usable (.ecdsa 256 [4] (-1)) = false := by
-  decide +kernel
+/-- **consistent_if_accepted**: a key ParseRawPrivateKey accepts has, as its marshalled public key,
+    exactly the public key blob stored in the file -/
+theorem consistent_if_accepted (o : Oracles) (file : Bytes) (k : PrivKey) (c : Bytes)
+    (h : parsePlain o file = .ok k c) :
+    ∃ w, parseContainer file = some w ∧ w.pubKey = k.pub.marshal := by
+  unfold parsePlain at h
+  cases hw : parseContainer file with
+  | none => rw [hw] at h; cases h
+  | some w =>
+    rw [hw] at h
+    simp only at h
+    refine ⟨w, rfl, ?_⟩
+    split at h
+    · cases h
+    · split at h
+      · repeat (split at h; (· cases h))
+        all_goals cases h
+      · split at h
+        · cases h
+        · exact (privBlock_outer _ _ _ _ _ _ h).symm
 
-/-- the code's decision does not depend on the outer public key blob at all (unencrypted API, file not
-    encrypted) … -/
-theorem outer_ignored (o : Oracles) (k1 k2 : Bytes) (w1 w2 : Container)
-    (h1 : parseContainer k1 = some w1) (h2 : parseContainer k2 = some w2)
-    (hsame : w1.cipher = w2.cipher ∧ w1.kdf = w2.kdf ∧ w1.kdfOpts = w2.kdfOpts ∧ w1.numKeys = w2.numKeys ∧
-      w1.privBlock = w2.privBlock)
-    (hplain : w1.kdf = none_ ∧ w1.cipher = none_) : parsePlain o k1 = parsePlain o k2 := by
-  obtain ⟨e1, e2, e3, e4, e5⟩ := hsame
-  unfold parsePlain
-  rw [h1, h2]
-  simp only [← e1, ← e2, ← e3, ← e4, ← e5, hplain.1, hplain.2, ne_eq, not_true_eq_false, or_self, ↓reduceIte]
+/-- … and the same for ParseRawPrivateKeyWithPassphrase -/
+theorem consistent_if_accepted_pass (o : Oracles) (file : Bytes) (k : PrivKey) (c : Bytes)
+    (h : parseWithPass o file = .ok k c) :
+    ∃ w, parseContainer file = some w ∧ w.pubKey = k.pub.marshal := by
+  unfold parseWithPass at h
+  cases hw : parseContainer file with
+  | none => rw [hw] at h; cases h
+  | some w =>
+    rw [hw] at h
+    simp only at h
+    refine ⟨w, rfl, ?_⟩
+    repeat (split at h; (· cases h))
+    · cases h
+    · split at h
+      · exact (privBlock_outer _ _ _ _ _ _ h).symm
+      · split at h
+        · split at h
+          · cases h
+          · exact (privBlock_outer _ _ _ _ _ _ h).symm
+        · cases h
 
-/-- … nor with the passphrase API -/
-theorem outer_ignored_pass (o : Oracles) (k1 k2 : Bytes) (w1 w2 : Container)
-    (h1 : parseContainer k1 = some w1) (h2 : parseContainer k2 = some w2)
-    (hsame : w1.cipher = w2.cipher ∧ w1.kdf = w2.kdf ∧ w1.kdfOpts = w2.kdfOpts ∧ w1.numKeys = w2.numKeys ∧
-      w1.privBlock = w2.privBlock) : parseWithPass o k1 = parseWithPass o k2 := by
-  obtain ⟨e1, e2, e3, e4, e5⟩ := hsame
-  unfold parseWithPass
-  rw [h1, h2]
-  simp only [← e1, ← e2, ← e3, ← e4, ← e5]
+/-! ## regression witnesses of the two former defects -/
 
 def wPriv : Bytes := List.replicate 64 7
 def wOracles : Oracles := ⟨fun _ _ => false, none, none, some (List.replicate 32 7), none⟩
@@ -181,25 +223,23 @@ def wFile : Bytes :=
   magic ++ putString none_ ++ putString none_ ++ putString [] ++ putU32 1 ++
     putString (PubKey.ed25519 (List.replicate 32 9)).marshal ++ putString (privBlockOf (.ed25519 wPriv) [] 5 8)
 
-/-- … so a file whose stored public key is NOT the key's public key is accepted: the clause "that
-    public key equals the one stored in the file" fails -/
-theorem outer_mismatch_accepted :
-    parsePlain wOracles wFile = .ok (.ed25519 wPriv) [] ∧
-    specAccept wOracles wFile (parsePlain wOracles wFile) = .err := by
+/-- a file whose stored public key is not the key's public key is rejected (9cae9ca), the same file
+    with the right public key is accepted -/
+theorem outer_mismatch_rejected :
+    parsePlain wOracles wFile = .err ∧
+    parsePlain wOracles (marshalPlain (.ed25519 wPriv) [] 5) = .ok (.ed25519 wPriv) [] := by
   decide +kernel
 
-/-- The property clause for accepted keys, as a statement about the model of the code: false. -/
-def C39_consistency_full : Prop :=
-  ∀ (o : Oracles) (file : Bytes) (k : PrivKey) (c : Bytes),
-    parsePlain o file = .ok k c → specAccept o file (.ok k c) = .ok k c
-
-theorem C39_consistency_full_fails : ¬ C39_consistency_full := by
-  intro h
-  have w := outer_mismatch_accepted
-  have := h wOracles wFile _ _ w.1
-  rw [w.1] at w
-  rw [w.2] at this
-  exact absurd this (by decide)
+/-- a zero or negative ECDSA scalar is rejected (4d7287a): here -1 and 0 with oracles that would let
+    everything else pass -/
+theorem ec_nonpositive_scalar_rejected :
+    let o : Oracles := ⟨fun _ _ => true, none, none, none, some [4]⟩
+    let outer := (PubKey.ecdsa 256 [4]).marshal
+    parseECPriv o outer (putString (nm "nistp256") ++ putString [4] ++ putString [255] ++ putString []) = .err ∧
+    parseECPriv o outer (putString (nm "nistp256") ++ putString [4] ++ putString [] ++ putString []) = .err ∧
+    parseECPriv o outer (putString (nm "nistp256") ++ putString [4] ++ putString [1] ++ putString []) =
+      .ok (.ecdsa 256 [4] 1) [] := by
+  decide +kernel
 
 /-! ## round trip of MarshalPrivateKey output (Ed25519) -/
 
@@ -267,7 +307,7 @@ theorem marshal_parse_ed25519 (o : Oracles) (priv comment : Bytes) (check : Nat)
   simp only []
   rw [parseString_putString _ hcom]
   simp only [hl, ne_eq, not_true_eq_false, ↓reduceIte, padding_accepted _ 8 (by decide), Bool.not_true,
-    Bool.false_eq_true, hpub, or_self]
+    Bool.false_eq_true, hpub, or_self, checkPub]
 
 /-- curve orders: sanity of the pinned constants (bit sizes 256 / 384 / 521) -/
 theorem curveOrder_bits : Nat.log2 (curveOrder 256) + 1 = 256 ∧ Nat.log2 (curveOrder 384) + 1 = 384 ∧
